@@ -125,16 +125,23 @@ func (ex *Exec) dbAxioms() []dbAxiom {
 // axioms up to the obligation, the path condition, the subgoal's local
 // hypotheses, and the relevance-filtered database axioms.
 func (ex *Exec) collectAsserts(o *Obligation, sg subgoal, exclude string) (asserts []*Term, neg *Term, extra []*Term) {
-	asserts = append(asserts, ex.axioms[:o.NAxioms]...)
-	// literals created later (by goal evaluation) still need their byte axioms
-	asserts = append(asserts, ex.litAxiomsAfter(o.NAxioms)...)
-	asserts = append(asserts, ex.globalFacts...)
-	asserts = append(asserts, o.Path)
-	asserts = append(asserts, sg.hyps...)
 	neg = Not(sg.goal)
 	if o.IsCover {
 		neg = True
 	}
+	var pool []*Term
+	pool = append(pool, ex.axioms[:o.NAxioms]...)
+	// literals created later (by goal evaluation) still need their byte axioms
+	pool = append(pool, ex.litAxiomsAfter(o.NAxioms)...)
+	pool = append(pool, ex.globalFacts...)
+	seed := append(append([]*Term{o.Path}, sg.hyps...), neg)
+	if o.IsCover || noCone {
+		asserts = append(asserts, pool...)
+	} else {
+		asserts = append(asserts, coneOfInfluence(pool, seed)...)
+	}
+	asserts = append(asserts, o.Path)
+	asserts = append(asserts, sg.hyps...)
 	all := append(append([]*Term{}, asserts...), neg)
 	used := map[string]bool{}
 	collect := func(ts []*Term) {
@@ -176,6 +183,14 @@ func (ex *Exec) collectAsserts(o *Obligation, sg subgoal, exclude string) (asser
 
 // buildQuery renders one subgoal as an SMT-LIB script.
 func (ex *Exec) buildQuery(o *Obligation, sg subgoal, exclude string, values []*Term) string {
+	return ex.buildQueryMode(o, sg, exclude, values, false)
+}
+
+// buildQueryMode: with light set, hypotheses that contain quantifiers are
+// replaced by their pre-instantiated instances only. A light query that is
+// unsat discharges the obligation (it uses fewer hypotheses); anything else
+// is inconclusive and the full query is tried.
+func (ex *Exec) buildQueryMode(o *Obligation, sg subgoal, exclude string, values []*Term, light bool) string {
 	asserts, neg, extra := ex.collectAsserts(o, sg, exclude)
 	all := append(append(append([]*Term{}, asserts...), extra...), neg)
 	used := map[string]bool{}
@@ -197,7 +212,14 @@ func (ex *Exec) buildQuery(o *Obligation, sg subgoal, exclude string, values []*
 			eng[n] = true
 		}
 	}
-	sb.WriteString(ex.engineAxioms(eng))
+	if !light {
+		sb.WriteString(ex.engineAxioms(eng))
+	} else if eng["subobj"] || eng["card"] || eng["sconcat"] || eng["chr"] || eng["sid"] || eng["seqshift"] {
+		// declarations only (the axioms are quantified)
+		if eng["subobj"] {
+			sb.WriteString("(declare-fun subobj.owner (Int) Int)\n(declare-fun subobj.field (Int) Int)\n")
+		}
+	}
 	focus := append(append([]*Term{}, sg.hyps...), neg)
 	insts := preInstantiate(append(append([]*Term{}, asserts...), extra...), focus)
 	var instDecl strings.Builder
@@ -215,11 +237,17 @@ func (ex *Exec) buildQuery(o *Obligation, sg subgoal, exclude string, values []*
 		sb.WriteString(")\n")
 	}
 	for _, a := range asserts {
+		if light && hasQuantStrict(a) {
+			continue
+		}
 		sb.WriteString("(assert ")
 		sb.WriteString(a.String())
 		sb.WriteString(")\n")
 	}
 	for _, a := range extra {
+		if light && hasQuantStrict(a) {
+			continue
+		}
 		sb.WriteString("(assert ")
 		sb.WriteString(a.String())
 		sb.WriteString(")\n")
@@ -262,4 +290,86 @@ func sortedKeys(m map[string]bool) []string {
 
 func (o *Obligation) String() string {
 	return fmt.Sprintf("%s [%s] %s %s", o.Name, strings.Join(o.Tags, ","), o.Pos, o.Text)
+}
+
+var noCone = false
+
+// coneOfInfluence keeps the hypotheses that can matter for the seed terms:
+// a definition (= c rhs) is kept only when c is already relevant (and then
+// makes the symbols of rhs relevant); any other fact is kept when it shares a
+// symbol with the relevant set. Dropping hypotheses can only make an
+// obligation harder to discharge, never easier.
+func coneOfInfluence(pool []*Term, seed []*Term) []*Term {
+	relevant := map[string]bool{}
+	addSyms := func(t *Term) {
+		t.Walk(func(x *Term) {
+			if x.IsSym {
+				relevant[x.Op] = true
+			}
+		})
+	}
+	for _, s := range seed {
+		addSyms(s)
+	}
+	type item struct {
+		t    *Term
+		def  string // defined symbol, "" for plain facts
+		syms []string
+		in   bool
+	}
+	items := make([]*item, len(pool))
+	for i, a := range pool {
+		it := &item{t: a}
+		body := a
+		if !a.IsSym && a.Op == "=>" {
+			body = a.Args[1]
+		}
+		if !body.IsSym && body.Op == "=" && len(body.Args) == 2 && body.Args[0].IsSym && len(body.Args[0].Args) == 0 {
+			it.def = body.Args[0].Op
+		}
+		seen := map[string]bool{}
+		a.Walk(func(x *Term) {
+			if x.IsSym && !seen[x.Op] {
+				seen[x.Op] = true
+				it.syms = append(it.syms, x.Op)
+			}
+		})
+		items[i] = it
+	}
+	for changed := true; changed; {
+		changed = false
+		for _, it := range items {
+			if it.in {
+				continue
+			}
+			take := false
+			if it.def != "" {
+				take = relevant[it.def]
+			} else {
+				for _, s := range it.syms {
+					if relevant[s] {
+						take = true
+						break
+					}
+				}
+				if len(it.syms) == 0 {
+					take = true
+				}
+			}
+			if take {
+				it.in = true
+				changed = true
+				for _, s := range it.syms {
+					relevant[s] = true
+				}
+			}
+		}
+	}
+	var out []*Term
+	for _, it := range items {
+		if it.in {
+			out = append(out, it.t)
+		}
+	}
+	return out
 }
